@@ -484,7 +484,9 @@ func (sm *shardManagerImpl) retryJoinCluster() {
 func (sm *shardManagerImpl) RegisterShard(clientShardID history.ClusterShardID) time.Time {
 	sm.logger.Info("RegisterShard", tag.NewStringTag("shard", ClusterShardIDtoString(clientShardID)))
 	registeredAt := sm.addLocalShard(clientShardID)
-	sm.broadcastShardChange("register", clientShardID)
+	// Announce the claim with its registration time: receivers compare it with their own registration time, so
+	// two instances claiming the same shard must agree on which claim is the newer one.
+	sm.broadcastShardChange("register", clientShardID, registeredAt)
 
 	// Trigger memberlist metadata update to propagate NodeMeta to other nodes
 	// Run asynchronously to avoid blocking callers
@@ -522,7 +524,7 @@ func (sm *shardManagerImpl) UnregisterShard(clientShardID history.ClusterShardID
 
 		// The entry was removed above, under the lock and only because it was still ours. Deleting it again here,
 		// unconditionally, could remove a registration made by a newer incarnation in the meantime.
-		sm.broadcastShardChange("unregister", clientShardID)
+		sm.broadcastShardChange("unregister", clientShardID, time.Now())
 
 		// Trigger memberlist metadata update to propagate NodeMeta to other nodes
 		// Run asynchronously to avoid blocking callers
@@ -878,7 +880,7 @@ func (sm *shardManagerImpl) GetIntraProxyTLSConfig() encryption.TLSConfig {
 	return sm.intraProxyTLSConfig
 }
 
-func (sm *shardManagerImpl) broadcastShardChange(msgType string, shard history.ClusterShardID) {
+func (sm *shardManagerImpl) broadcastShardChange(msgType string, shard history.ClusterShardID, at time.Time) {
 	if !sm.started || sm.ml == nil || sm.memberlistConfig == nil {
 		return
 	}
@@ -887,7 +889,7 @@ func (sm *shardManagerImpl) broadcastShardChange(msgType string, shard history.C
 		Type:        msgType,
 		NodeName:    sm.GetNodeName(),
 		ClientShard: shard,
-		Timestamp:   time.Now(),
+		Timestamp:   at,
 	}
 
 	data, err := json.Marshal(msg)
